@@ -329,6 +329,11 @@ func (p *parser) led(left *Node) *Node {
 func (p *parser) dotRHS(power int) *Node {
 	switch p.cur().kind {
 	case tIdent, tQuoted:
+		if t := p.cur(); t.kind == tIdent && t.text == "let" && p.peek(1).kind == tVariable {
+			// a let expression is not one of the things that may follow a dot; read as the field "let" the variable after
+			// it is an error too
+			p.fail("let expression after '.'")
+		}
 		return p.expression(power)
 	case tStar:
 		return p.expression(power)
